@@ -70,6 +70,10 @@ func runC10(c *Ctx) {
 	c.rule("implements-both-forms", "wherever the code tests whether a type implements TextUnmarshaler (to decide whether to recurse into / flatten a struct), it tests both the type and its pointer type in the same function", 6)
 	c.rule("flatten-flag-accumulates", "in the flatten unmangler the 'any child set' flag only grows inside the field loop: after a nested struct it is old || nested (the nested result is not discarded), after a leaf it becomes true exactly under a non-nil value; the parent pointer is installed exactly when the flag is set", 3)
 	c.rule("nonnil-preserved", "containers rebuilt on the way back are created with reflect.MakeSlice / MakeMap* (a non-nil, possibly empty, input stays non-nil) and reflect.Zero of a container type is returned only under a nil-ness test of the input", 3)
+	c.rule("zero-only-for-unset", "in the transform package reflect.Zero (the 'unset' value handed back to lower layers) is produced only under a true nil-ness test of the value it replaces (IsNil / IsZero / isNil / == nil / the all-fields-nil flag): an explicitly empty slice, map or struct is not reported as unset", 7)
+	c.rule("anon-unset-total", "the anonymous-flatten unmangler clears its all-fields-nil flag for a value of a nil-able kind {Ptr, Slice, Map, Interface, Chan} only under a test that the value is not nil/zero", 1)
+	c.rule("either-or", "(shared with C14) AliasMangler.Unmangle: both-set error exactly when both copies are set; values returned from the scan were tested set", 3)
+	c.rule("nil-test-total", "(shared with C14) every 'is set' test in AliasMangler.Unmangle goes through one kind-total predicate", 2)
 	c.rule("unset-stays-unset", "every Unmangle that parses or converts does so only after a nil test of its input that returns the zero of the original field type", 3)
 	c.rule("should-recurse-table", "ShouldRecurse is a constant per mangler: false for the flattening mangler (it walks nested structs itself), true for all others", 9)
 
@@ -82,25 +86,16 @@ func runC10(c *Ctx) {
 		c.analysed(relName(im.mangle))
 		c.analysed(relName(im.unmangle))
 		c10Arity(c, im)
-		// should-recurse
-		want := "true"
-		if im.name == "transform.FlattenMangler" {
-			want = "false"
-		}
-		okR := true
-		for _, r := range returnsOf(im.recurse) {
-			cst, ok := retVals(r)[0].(*ssa.Const)
-			if !ok || cst.Value == nil || cst.Value.ExactString() != want {
-				okR = false
-			}
-		}
-		c.check(okR, "should-recurse-table", im.name, im.recurse.Pos(), im.name+".ShouldRecurse == "+want, im.name+".ShouldRecurse is not the constant "+want)
+		c10ShouldRecurse(c, im)
 	}
 
 	c10Window(c)
 	c10Implements(c)
 	c10FlattenFlag(c)
 	c10NonNil(c)
+	c10ZeroOnlyUnset(c)
+	c10AnonUnsetTotal(c)
+	c14AliasUnmangle(c)
 	c10Unset(c)
 	_ = w
 }
@@ -783,4 +778,200 @@ func countChecked(um *ssa.Function) bool {
 		}
 	}
 	return false
+}
+
+// c10ZeroOnlyUnset: every reflect.Zero in the transform package is dominated by
+// a true nil-ness test.
+func c10ZeroOnlyUnset(c *Ctx) {
+	w := c.W
+	isNilTest := func(ec edgeCond) bool {
+		switch x := ec.Cond.(type) {
+		case *ssa.Call:
+			if !ec.Val {
+				return false
+			}
+			switch calleeFullName(x) {
+			case "(reflect.Value).IsNil", "(reflect.Value).IsZero":
+				return true
+			}
+			if callee := staticCallee(x); callee != nil && w.inRepo(callee) && (callee.Name() == "isNil" || callee.Name() == "aliasUnset") {
+				return true
+			}
+		case *ssa.BinOp:
+			// x == nil (pointer or interface holding a nil pointer constant)
+			if x.Op == token.EQL && ec.Val || x.Op == token.NEQ && !ec.Val {
+				for _, side := range []ssa.Value{x.X, x.Y} {
+					v := side
+					if mi, ok := v.(*ssa.MakeInterface); ok {
+						v = mi.X
+					}
+					if ld, ok := v.(*ssa.UnOp); ok && ld.Op == token.MUL {
+						// a local `var nilPtr *T` never assigned
+						if a, ok := ld.X.(*ssa.Alloc); ok {
+							stores := 0
+							for _, r := range *a.Referrers() {
+								if _, ok := r.(*ssa.Store); ok {
+									stores++
+								}
+							}
+							if stores == 0 {
+								return true
+							}
+						}
+					}
+					if isNilConst(v) {
+						return true
+					}
+				}
+			}
+		case *ssa.Extract:
+			// the all-fields-nil flag returned by the anonymous-flatten helper
+			if call, ok := x.Tuple.(*ssa.Call); ok && ec.Val && x.Index == 1 {
+				if callee := staticCallee(call); callee != nil && callee.Name() == "unmangleStruct" {
+					return true
+				}
+			}
+		}
+		return false
+	}
+	n := 0
+	for _, f := range w.funcsIn("transform") {
+		for _, i := range allInstrs(f) {
+			call, ok := i.(*ssa.Call)
+			if !ok || calleeFullName(call) != "reflect.Zero" {
+				continue
+			}
+			n++
+			c.analysed(relName(f))
+			okG := false
+			for _, ec := range condsDominating(call.Block()) {
+				if isNilTest(ec) {
+					okG = true
+				}
+			}
+			id := relName(f) + "#zero"
+			c.check(okG, "zero-only-for-unset", id, call.Pos(), "reflect.Zero is produced under a true nil-ness test", "reflect.Zero is produced without a dominating nil-ness test of the value it replaces (for example under Len() == 0): an explicitly empty value is handed back as unset and no longer overrides lower layers")
+		}
+	}
+	if n == 0 {
+		c.bad("zero-only-for-unset", "transform", 0, "no reflect.Zero call found in the transform package")
+	}
+}
+
+// c10AnonUnsetTotal: in the anonymous-flatten struct unmangler the returned
+// all-nil flag is cleared, for values of nil-able kinds, only under a not-nil
+// / not-zero test of that value.
+func c10AnonUnsetTotal(c *Ctx) {
+	w := c.W
+	f := w.fn("transform", "AnonymousFlattenMangler.unmangleStruct")
+	if !c.need(f != nil, "transform.AnonymousFlattenMangler.unmangleStruct") {
+		return
+	}
+	// the returned flag
+	var flag *ssa.Phi
+	for _, r := range returnsOf(f) {
+		rv := retVals(r)
+		if p, ok := rv[len(rv)-1].(*ssa.Phi); ok {
+			flag = p
+		}
+	}
+	if flag == nil {
+		c.undecided("anon-unset-total", relName(f), f.Pos(), "the all-fields-nil result is not a loop-carried flag")
+		return
+	}
+	// blocks from which a constant false flows into the flag
+	var falseBlocks []*ssa.BasicBlock
+	seen := map[*ssa.Phi]bool{}
+	var walk func(p *ssa.Phi)
+	walk = func(p *ssa.Phi) {
+		if seen[p] {
+			return
+		}
+		seen[p] = true
+		for ei, e := range p.Edges {
+			switch x := e.(type) {
+			case *ssa.Const:
+				if x.Value != nil && x.Value.ExactString() == "false" {
+					falseBlocks = append(falseBlocks, p.Block().Preds[ei])
+				}
+			case *ssa.Phi:
+				walk(x)
+			}
+		}
+	}
+	walk(flag)
+	isTupleValue := func(v ssa.Value) bool {
+		_, ok := loadOfTypeField(v, "transform.FieldValueTuple", "Value")
+		return ok
+	}
+	pb := &predBuilder{name: func(v ssa.Value) string {
+		call, ok := v.(*ssa.Call)
+		if !ok {
+			return ""
+		}
+		switch calleeFullName(call) {
+		case "(reflect.Value).Kind":
+			if isTupleValue(call.Call.Args[0]) {
+				return "val.Kind()"
+			}
+		case "(reflect.Value).IsZero", "(reflect.Value).IsNil":
+			if isTupleValue(call.Call.Args[0]) {
+				return "unset"
+			}
+		}
+		return ""
+	}}
+	// the loop header
+	var hdr *ssa.BasicBlock
+	for b := flag.Block(); b != nil; b = b.Idom() {
+		for _, p := range b.Preds {
+			if b.Dominates(p) {
+				hdr = b
+			}
+		}
+		if hdr != nil {
+			break
+		}
+	}
+	if hdr == nil || len(falseBlocks) == 0 {
+		c.undecided("anon-unset-total", relName(f), f.Pos(), "no loop / no clearing of the flag found")
+		return
+	}
+	bad := ""
+	rows := 0
+	for _, fbk := range falseBlocks {
+		g := pb.pathCond(hdr, fbk)
+		fb, fi := map[string]bool{}, map[string]bool{}
+		atomsOf(g, fb, fi)
+		n, counter := forAll(g, map[string][]int64{"val.Kind()": {kPtr, kSlice, kMap, kInterface, kChan}}, func(e env, fv bool) bool {
+			if !fv {
+				return true
+			}
+			return fi["val.Kind()"] && fb["unset"] && !e.B["unset"]
+		})
+		rows += n
+		if counter != "" {
+			bad = counter
+		}
+	}
+	if bad == "" {
+		c.okRows("anon-unset-total", relName(f), f.Pos(), rows, "the flag is cleared for nil-able kinds only under a not-nil test (%d assignments)", rows)
+	} else {
+		c.bad("anon-unset-total", relName(f), f.Pos(), "the all-fields-nil flag is cleared for a nil value of a nil-able kind (an embedded pointer whose fields are all unset would come back non-nil and clobber lower layers): %s", bad)
+	}
+}
+
+func c10ShouldRecurse(c *Ctx, im manglerImpl) {
+	want := "true"
+	if im.name == "transform.FlattenMangler" {
+		want = "false"
+	}
+	okR := true
+	for _, r := range returnsOf(im.recurse) {
+		cst, ok := retVals(r)[0].(*ssa.Const)
+		if !ok || cst.Value == nil || cst.Value.ExactString() != want {
+			okR = false
+		}
+	}
+	c.check(okR, "should-recurse-table", im.name, im.recurse.Pos(), im.name+".ShouldRecurse == "+want, im.name+".ShouldRecurse is not the constant "+want+" (nested structs, also inside slices and arrays, would not be translated like top-level ones)")
 }
